@@ -66,13 +66,19 @@ func TestWorker(t *testing.T) {
 	}
 	core.KeepLog = j.KeepLog
 
-	// warm-up: the first run of a process differs from later runs of the same
-	// seed (one-time initialisations consume draws of the runtime stream), so
-	// every process runs seed 0 first and discards it (DESIGN.md 2.1).
+	// warm-up: the first execution of a code path in a process can differ from
+	// later ones (one-time initialisations in the standard library take locks or
+	// create maps and thereby consume draws of the runtime stream), so every
+	// process -- batch or replay -- first runs the same 32 warm-up seeds and
+	// discards them (DESIGN.md 2.1).
 	if !j.NoWarm {
-		for _, p := range chk.Expand(t, 0, "quick") {
-			chk.Run(t, p)
-			break
+		for ws := uint64(0); ws < 32; ws++ {
+			for i, p := range chk.Expand(t, ws, "quick") {
+				if i >= 3 {
+					break
+				}
+				chk.Run(t, p)
+			}
 		}
 	}
 
@@ -92,6 +98,9 @@ func TestWorker(t *testing.T) {
 		emit("START " + string(pb))
 		r := chk.Run(t, &p)
 		r.Plan = &p
+		if j.KeepLog && core.LastLog != nil {
+			r.LogTail = core.LastLog.Lines
+		}
 		emit("RESULT " + r.JSON())
 	default:
 		start := time.Now()
@@ -116,6 +125,9 @@ func TestWorker(t *testing.T) {
 				r := chk.Run(t, p)
 				if len(r.Violations) > 0 {
 					r.Plan = p
+				}
+				if j.KeepLog && core.LastLog != nil {
+					r.LogTail = core.LastLog.Lines
 				}
 				emit("RESULT " + r.JSON())
 			}
